@@ -48,16 +48,24 @@ META = {
     "CRS a 'utm*' string resolves to (norm_crs, C11) are parameters of the model; the strict 'less than one pixel + tol' bound "
     "excludes the degenerate zero-width region with tol = 0 (equality there, proved and replayed).  Direct comparisons of "
     "the private helper _norm_anchor are soft (a difference is a note; the public entry points decide).",
+    "observations": "OBSERVATION (decided against the property text: its quantifier is regions with finite coordinates, so this is not a finding): "
+    "from_bbox(region, shape=(ny, nx), tight=True / anchor='floating') performs no check at all on the region -- a nan / inf "
+    "coordinate comes back as a GeoBox with nan / inf in its transform (theorem from_bbox_shape_x_floating_accepts_nonfinite, "
+    "replayed by the bboxshapex stream); every other branch rejects non-finite regions (proved).  Fourth increment: from_geopolygon "
+    "end to end through C07's to_crs model (Props/C08C07.lean: any geometry kind, holes and parts, CRS comparison, CRS-less "
+    "geometry, covers every re-projected vertex).",
     "inventory_not_modelled": "geobox.py / math.py / types.py parts of the anchors without a Lean mirror in Model/C08*: the real "
     "projection (pyproj) behind crs='utm*' and from_geopolygon(crs=other) -- parameter of the model, exact correspondence with a "
     "substituted affine projection, real pyproj by the independent-projection oracle; the UTM zone choice (C11); densification "
     "options of to_crs; float() coercions of numpy scalars / 0-d arrays in bbox, anchor and tol (oracle only: "
-    "result-depends-on-numeric-spelling); C08 o C07 (from_geopolygon(crs=) through C07's to_crs model instead of a projection parameter) is not composed; a str given as shape is iterated digit by digit (driven as the sequence it amounts to); CRS "
+    "result-depends-on-numeric-spelling); empty geometries (their boundingbox) in from_geopolygon; a str given as shape is iterated digit by digit (driven as the sequence it amounts to); CRS "
     "objects whose truth value is False; zoom_out / zoom_to(shape) live in Model/C02 (zoom_to(resolution=) is linked to "
     "C08.fromBbox by theorem zoom_to_resolution_is_from_bbox).",
     "technique": "Lean 4 proof over hand model + exhaustive/random differential correspondence with real code",
     "design_ref": "DESIGN.md §4 C08",
 }
+
+META["note"] += "  " + META["observations"]      # the manifest copies `note`
 
 CRS = "epsg:3857"
 TOLS = [F(1, 4), F(0.01), F(1e-3), F(1e-4), TOL6, F(0)]
@@ -1136,6 +1144,87 @@ def sec_forms(R: Run):
                      f"result reports CRS {g.crs}, expected {CRS_CODES.get(want_crs)}", sig=f"polyargs-crs|{ck}")
             if res is not None and (sn is None or all(0 <= v < 1 for v in sn)):
                 bbox_oracle(R, g, bbn, res, sn, tol, F(0), case, "from-geopolygon-args")
+    assert Geometry.to_crs is orig_geom_to_crs
+
+    # ---- from_geopolygon end to end through C07's to_crs model (Props/C08C07.lean): polygons WITH HOLES and multipolygons
+    # (the bounding box is the envelope of the vertices of every ring and part), crs None / same / other / CRS-less geometry
+    for _ in range(R.pick(250, 2500)):
+        px, py = F(2) ** rng.randint(-1, 1), F(2) ** rng.randint(-1, 1)
+        nparts = rng.choice([1, 1, 2, 3])
+        parts = []
+        for _p in range(nparts):
+            ox, oy = F(rng.randint(-40, 40), 2), F(rng.randint(-40, 40), 2)
+            w, h_ = F(rng.randint(4, 24), 2), F(rng.randint(4, 24), 2)
+            ext = [(ox, oy), (ox + w, oy), (ox + w, oy + h_), (ox, oy + h_), (ox, oy)]
+            rings = [ext]
+            if rng.random() < 0.5:
+                hx0, hy0 = ox + w / 4, oy + h_ / 4
+                rings.append([(hx0, hy0), (hx0, hy0 + h_ / 4), (hx0 + w / 4, hy0 + h_ / 4), (hx0, hy0)])
+            parts.append(rings)
+        pcode = rng.choice([None, 0, 1, 2])
+        ck = rng.choice(["none", "unset", "given", "given", "same"])
+        if ck == "same" and pcode is None:
+            ck = "given"
+        ccode = pcode if ck == "same" else rng.choice([c for c in (1, 2, 3) if c != pcode])
+        Av = [rng.choice([-1, 1]) * F(2) ** rng.randint(-1, 1), F(rng.randint(-2, 2)), F(rng.randint(-64, 64)),
+              F(rng.randint(-2, 2)), rng.choice([-1, 1]) * F(2) ** rng.randint(-1, 1), F(rng.randint(-64, 64))]
+        if ck in ("none", "unset", "same"):
+            Av = [F(1), F(0), F(0), F(0), F(1), F(0)]
+        Af = [float(v) for v in Av]
+        sx, sy = rng.choice([1, -1]), rng.choice([1, -1])
+        res = (sx * px, sy * py)
+        anch = rnd_anchor(rng, 2)
+        tight = rng.random() < 0.15
+        tol = rng.choice([TOL2, F(0)])
+        allpts = [q for rings in parts for ring in rings for q in ring]
+        projected = ck == "given" and pcode is not None
+        ppts = [(Av[0] * x + Av[1] * y + Av[2], Av[3] * x + Av[4] * y + Av[5]) for x, y in allpts] if projected else allpts
+        bbn = (min(p_[0] for p_ in ppts), min(p_[1] for p_ in ppts), max(p_[0] for p_ in ppts), max(p_[1] for p_ in ppts))
+        sn = anch.snap(tight)
+        if not (axis_exact(bbn[0], bbn[2], res[0], None if sn is None else sn[0]) and axis_exact(bbn[1], bbn[3], res[1], None if sn is None else sn[1])):
+            R.count("polyvia:skipped-inexact")
+            continue
+        gcalls = [0]
+
+        def fake_to_crs(self, crs, *a, **kw):
+            gcalls[0] += 1
+            if self.crs is None:
+                raise ValueError("Cannot project geometries without CRS")
+            import shapely.ops
+            mapped = shapely.ops.transform(lambda x, y, z=None: (Af[0] * x + Af[1] * y + Af[2], Af[3] * x + Af[4] * y + Af[5]), self.geom)
+            return Geometry(mapped, CRS_CODES[ccode])
+
+        out = []
+
+        def fv():
+            fl = lambda ring: [(float(x), float(y)) for x, y in ring]
+            crs_geom = None if pcode is None else CRS_CODES[pcode]
+            if len(parts) == 1:
+                poly = geom.polygon(fl(parts[0][0]), crs_geom, *[fl(r_) for r_ in parts[0][1:]])
+            else:
+                poly = geom.multipolygon([[fl(r_) for r_ in rings] for rings in parts], crs_geom)
+            crs_arg = None if ck == "none" else Unset() if ck == "unset" else CRS_CODES[ccode]
+            if ck == "given":
+                Geometry.to_crs = fake_to_crs
+            try:
+                g = GeoBox.from_geopolygon(poly, resxy_(float(res[0]), float(res[1])), crs_arg, tight=tight, tol=float(tol), anchor=anch.py(GB, xy_))
+            finally:
+                Geometry.to_crs = orig_geom_to_crs
+            if ck == "given" and gcalls[0] == 0:
+                return "HOOK-BYPASSED"
+            out.append(g)
+            return f"{gb_s(g)} {crs_code(g.crs)}"
+
+        gspec = "@".join("|".join(",".join(frac_s(x) + ";" + frac_s(y) for x, y in ring) for ring in rings) for rings in parts)
+        line = (f"c08 polyvia {gspec} {'N' if pcode is None else pcode} {'N' if ck in ('none', 'unset') else 'c:' + str(ccode)} "
+                f"{';'.join(frac_s(v) for v in Av)} {res_tok(res)} N N {bool_s(tight)} {anch.tok()} {frac_s(tol)}")
+        o_ = guarded(fv)
+        if o_ == "HOOK-BYPASSED":
+            hook_bypassed_note(R, "polyvia-crs")
+            continue
+        R.corr(line, lambda: o_, sig=f"polyvia|parts{min(len(parts), 2)}|poly-crs={'none' if pcode is None else 'some'}|crs={ck}")
+        if out and (sn is None or all(0 <= v < 1 for v in sn)):
+            bbox_oracle(R, out[0], bbn, res, sn, tol, F(0), {"fn": "GeoBox.from_geopolygon (holes / parts)", "line": line}, "from-geopolygon-via")
     assert Geometry.to_crs is orig_geom_to_crs
 
 
